@@ -31,6 +31,12 @@ def run(tier, out):
         evals += s["steps"]
         if first is None:
             first = (tp, s)
+    # table level: ClaimTable::cache / expiry / remove_claims against Table.tla (LearnedIsLastWriter, LearnedExpires)
+    from checks import tablecommon
+    cov_table = tablecommon.run_table_part(PID, out, tier, "C13") or {}
+    cov_table.pop("tree_trace", None)
+    validated += cov_table.get("traces_validated_against_impl", 0)
+    evals += cov_table.get("evaluations", 0)
     wd = V.workdir(PID)
     vp = os.path.join(wd, "trace_vlan.ndjson")
     sv = V.harness_json(["node", "vlan", vp])
@@ -55,7 +61,10 @@ def run(tier, out):
         "rule": "random 300-step sequences (frames over 3 MACs x 5 VLAN tags x 16 PCP/DEI nibbles x nested tags; deliveries; time steps 1, 2, timeout-1/+0/+1; leaves): %s (mode, nodes, runs); "
                 "65536 tag-control values; each step is one distinct recorded event" % plans,
         "self_test": st,
+        "table_level": {k: v for k, v in cov_table.items() if k in ("states", "transitions", "rule", "design_runs", "evaluations", "traces_validated_against_impl")},
     }
+    cov["states"] += cov_table.get("states", 0)
+    cov["transitions"] += cov_table.get("transitions", 0)
     return out.finish("model_checking", cov, assumptions=[
         "switch timeout 10 s in the recorded runs (configuration value), ticks are housekeeping rounds; the tick at exactly t0 + timeout is a don't-care",
         "MockDevice reports a TUN device: 'normal mode on tap devices' is exercised as explicit switch mode"])
